@@ -303,6 +303,11 @@ class Tally:
         self.samples = []
         self.notes = []
         self.trivial = set(cfg.get("trivial_tags", []))
+        self.foreign = {}
+        self.foreign_seen = {}
+        for cls, other in cfg.get("foreign_classes", {}).items():
+            if any(f["cls"] == cls for f in load_findings(other)):
+                self.foreign[cls] = other
 
     def feed(self, ops_path, ver_path, keep_samples=4):
         with open(ops_path) as fo, open(ver_path) as fv:
@@ -333,6 +338,10 @@ class Tally:
                     if cls and cls in self.findings:
                         self.known[cls] = self.known.get(cls, 0) + 1
                         self.known_sample.setdefault(cls, op)
+                    elif cls and cls in self.foreign:
+                        # a clause of ANOTHER property evaluated in this suite (listed there as an
+                        # open finding): counted, neither a violation nor a finding of this property
+                        self.foreign_seen[cls] = self.foreign_seen.get(cls, 0) + 1
                     elif v.startswith("fail"):
                         self.fails.append((op, v))
                     else:
@@ -513,6 +522,7 @@ def main():
                 "model_impl_disagreements": len(tally.disagree),
                 "property_failures": len(tally.fails),
                 "known_finding_cases": tally.known,
+                "other_property_finding_cases": {f"{k} (open finding of {tally.foreign[k]})": v for k, v in tally.foreign_seen.items()},
                 "notes": tally.notes[:20],
                 "exhaustive": bool(cfg.get("exhaustive", {}).get(tier, False)),
                 "explanation": cfg.get("explanation", ""),
